@@ -349,30 +349,31 @@ func run(r *evid.Run) {
 	}
 	r.Set("phase_seconds_many_files", int(time.Since(t0).Seconds()))
 	t0 = time.Now()
-	// one base at a time (bounds memory: every instance holds its own copy of the new schema)
-	ignoreCandidates := map[string][]Instance{}
-	var baseOrder []string
-	if want("main") {
-		process(SyntaxInstances())
-	}
-	for _, b := range Bases() {
-		if r.Expired() {
-			break
-		}
-		instances := Instances(b, full)
-		ignoreCandidates[b.Name] = IgnoreCandidates(instances)
-		baseOrder = append(baseOrder, b.Name)
-		if want("main") {
-			process(instances)
-		}
-	}
-	r.Set("phase_seconds_main", int(time.Since(t0).Seconds()))
-	t0 = time.Now()
-	// configuration dimension: ignore / ignore_only entries for other paths and other IDs x map iteration orders
+	// configuration dimension: ignore / ignore_only / except entries for other paths and other IDs x map iteration
+	// orders. Runs before the long main phase (so that a deadline under load cuts the tail of the catalogue, not a
+	// whole dimension); its cases are picked from the catalogue, generated here once more per base and dropped again.
 	if want("ignore-config") && len(onlyOps) == 0 && !r.Expired() {
+		ignoreCandidates := map[string][]Instance{}
+		var baseOrder []string
+		for _, b := range Bases() { // one base at a time (memory)
+			ignoreCandidates[b.Name] = IgnoreCandidates(Instances(b, full))
+			baseOrder = append(baseOrder, b.Name)
+		}
 		RunIgnoreConfigs(r, eng, ignoreCandidates, baseOrder, full)
 	}
 	r.Set("phase_seconds_ignore_config", int(time.Since(t0).Seconds()))
+	t0 = time.Now()
+	// one base at a time (bounds memory: every instance holds its own copy of the new schema)
+	if want("main") {
+		process(SyntaxInstances())
+		for _, b := range Bases() {
+			if r.Expired() {
+				break
+			}
+			process(Instances(b, full))
+		}
+	}
+	r.Set("phase_seconds_main", int(time.Since(t0).Seconds()))
 	r.Set("instances", totalInstances)
 	r.Set("work_items", totalItems)
 
